@@ -51,6 +51,14 @@ Theorem C19_ancillary_vouched : forall vk tbl ls f e,
   In e f \/ (fst (anc_task vk tbl ls f) = true /\ exists id m, tbl_get tbl id = Some m /\ vouched_by vk m e).
 Proof. exact anc_task_in. Qed.
 
+(* the manifest hash concatenates keys and values; as long as no key contains the text of a digest
+   (plain, non-empty byte keys; values are digests) it still determines the manifest - the ambiguity
+   C19_refuted_manifest_resplit needs a key that swallows a neighbouring value *)
+Theorem C19_manifest_hash_injective_plain : forall m1 m2,
+  plain_data (m_data m1) -> plain_data (m_data m2) ->
+  manifest_hash m1 = manifest_hash m2 -> m_data m1 = m_data m2.
+Proof. exact manifest_hash_injective_plain. Qed.
+
 (* non-vacuity: an honest download with ancillary files *)
 Definition p (s : String.string) : path := bytes s.
 Definition ex_imm (n : N) (c : N) : archive :=
@@ -60,17 +68,20 @@ Definition ex_data : list (path * bt) := [(p "ledger/100/state", file_digest 50)
 Definition ex_manifest : manifest := {| m_data := ex_data; m_sig := Some (SigOf 1 (manifest_hash {| m_data := ex_data; m_sig := None |})) |}.
 Definition ex_scn : scenario :=
   {| s_init := [(p "myfile", 9)]; s_beacon := 1; s_range := RFull; s_allow_override := true; s_anc := true; s_vk := Some 1;
-     s_net_known := true; s_imm := [(0, [None; Some (ex_imm 0 10)]); (1, [Some (ex_imm 1 20)])];
+     s_net_known := true; s_par := 1; s_imm := [(0, [None; Some (ex_imm 0 10)]); (1, [Some (ex_imm 1 20)])];
      s_anc_locs := [Some {| ar_entries := [(p "ledger/100/state", 50); (p "ancillary_manifest.json", 77); (p "immutable/00002.chunk", 51); (p "unlisted", 52)]; ar_fail := None |}];
      s_tbl := [(77, ex_manifest)] |}.
 Example C19_ex :
   fst (download_unpack ex_scn) = true /\ length (snd (download_unpack ex_scn)) = 11%nat /\
   lookup (snd (download_unpack ex_scn)) (p "ledger/100/state") = Some 50 /\
   lookup (snd (download_unpack ex_scn)) (p "unlisted") = None /\
+  plain_data ex_data /\
   archives_well_formed ex_scn.
 Proof.
   split; [vm_compute; reflexivity|]. split; [vm_compute; reflexivity|]. split; [vm_compute; reflexivity|].
   split; [vm_compute; reflexivity|].
+  split.
+  { intros e [<-|[<-|[]]]; (split; [split; [discriminate | intros x Hx; vm_compute in Hx; repeat (destruct Hx as [<-|Hx]; [reflexivity|]); destruct Hx] | eexists; reflexivity]). }
   intros n a q c Ha Hq _. unfold ex_scn in Ha. cbn [s_imm locs_of] in Ha.
   destruct (0 =? n) eqn:E0; [apply N.eqb_eq in E0; subst n|].
   - destruct Ha as [Ha|[Ha|[]]]; [discriminate|]. injection Ha as <-. cbn [ex_imm ar_entries] in Hq.
